@@ -654,3 +654,67 @@ def track_socket_close(env, sock, store, name):
         return orig()
 
     sock.close = close
+
+
+# ---------------------------------------------------------------------------
+# valid frame sequences from message specs (C15 / C16)
+
+
+def _msg_layout(m):
+    """(cuts, ctl_by_gap) of a message spec, tolerant of mutilated input."""
+    cuts = [c for c in (m.get("cuts") or ()) if isinstance(c, int) and c >= 0][:20]
+    ctl = {}
+    for c in m.get("ctl") or ():
+        if isinstance(c, list) and len(c) == 3 and c[1] in (9, 10) and isinstance(c[0], int):
+            ctl.setdefault(min(max(c[0], 0), len(cuts) + 1), []).append(c)
+    return cuts, ctl
+
+
+def plan_frames(msgs):
+    """The frame sequence a list of message specs expands to, without payloads:
+    [("ctl", mi, opcode, payload_spec) | ("frag", mi, j, nfrags)]."""
+    out = []
+    for mi, m in enumerate(msgs):
+        cuts, ctl = _msg_layout(m)
+        nfr = len(cuts) + 1
+        for j in range(nfr + 1):
+            for c in ctl.get(j, ()):
+                out.append(("ctl", mi, c[1], c[2]))
+            if j < nfr:
+                out.append(("frag", mi, j, nfr))
+    return out
+
+
+def build_frames(msgs, deflater=None, limit=None, mi0=0):
+    """[{"op", "fin", "rsv", "payload", "mi", "j", "last", "ctl"}] for valid traffic.
+    A message is compressed when its spec says "z" and a deflater exists (and
+    the result fits ``limit``)."""
+    frames = []
+    for mi, m in enumerate(msgs, mi0):
+        cuts, ctl = _msg_layout(m)
+        data = expand_data(m["d"])
+        z = m.get("z") if deflater is not None else None
+        payload = data
+        if z:
+            comp = deflater.compress(data, z if z in ("sync", "full", "multi", "stored") else "sync",
+                                     limit=limit)
+            if comp is None:
+                z = None
+            else:
+                payload = comp
+        frs = []
+        pos = 0
+        for c in cuts:
+            frs.append(payload[pos:pos + c])
+            pos += c
+        frs.append(payload[pos:])
+        for j in range(len(frs) + 1):
+            for c in ctl.get(j, ()):
+                frames.append({"op": c[1], "fin": True, "rsv": 0, "payload": expand_data(c[2]),
+                               "mi": mi, "j": j, "last": False, "ctl": True})
+            if j < len(frs):
+                frames.append({"op": (m["t"] if j == 0 else 0), "fin": j == len(frs) - 1,
+                               "rsv": W.RSV1 if (z and j == 0) else 0, "payload": frs[j],
+                               "mi": mi, "j": j, "last": j == len(frs) - 1, "ctl": False,
+                               "z": bool(z)})
+    return frames
